@@ -243,6 +243,31 @@ def l1_leg_queries_agree(F, r):
         raise AnchorError(f"only {n} paired routing queries found (writer seen: {writer_seen})")
 
 
+def g2_tag_of_used_place(F, r):
+    """the tag written with an activity is looked up for the place that was actually used: the writer hands `get_job_tag` the activity's place location and the place's own
+    time window (`act.place.time`) — not the interval in which the activity happened to be scheduled (two places at one location with different windows and tags)"""
+    from . import c01
+    n = 0
+    for fid, fn in sorted(F.fns.items()):
+        if "::promoted[" in fid or not F.fns.get(F.root_of(fid), fn)["module"].startswith("vrp_pragmatic::format::solution::solution_writer"):
+            continue
+        for bi, t in mir.calls(fn):
+            if not t["callee"].endswith("activity_matcher::get_job_tag") or len(t["args"]) < 2:
+                continue
+            n += 1
+            toks = c01._toks_deep(fn, t["args"][1])
+            inst = f"{util.short_fn(F.root_of(fid))}: tag lookup"
+            if "place" in toks and "time" in toks and "location" in toks and "arrival" not in toks:
+                r.ok(inst, "get_job_tag(single, (act.place.location, (act.place.time, start departure)))")
+            elif "arrival" in toks:
+                r.fail(inst, "the tag is looked up by the activity's schedule interval (arrival .. departure) instead of the time window of the place that was used: when two places "
+                       "share a location the tag of the wrong place is reported", F.loc(fid, t["ln"]))
+            else:
+                r.fail(inst, "the tag lookup is not fed with the used place's location and time window", F.loc(fid, t["ln"]))
+    if n == 0:
+        raise AnchorError("solution_writer no longer looks place tags up through get_job_tag")
+
+
 def g1_tag_positions(F, r):
     """place tags are indexed by the position of the place in the task (the writer looks the tag up by place index)"""
     gs = F.find1("job_reader::get_single")
@@ -331,11 +356,16 @@ def run(ctx):
     ctx.run("C03-H2", "per-leg accumulation keeps statistic fields apart", h2_leg_accumulation, floor=8)
     ctx.run("C03-R1", "report / check / schedule code uses exact routing queries only (no `_approx`)", r1_exact_routing_only, floor=1)
     ctx.run("C03-L1", "distance, duration and cost of a leg are queried for the same (from, to, departure) in every body that asks for both", l1_leg_queries_agree, floor=4)
+    ctx.run("C03-G2", "the reported tag is the tag of the place that was used (lookup by the place's own location and window)", g2_tag_of_used_place, floor=1)
     ctx.run("C03-G1", "place tags are indexed by place position", g1_tag_positions, floor=1)
     try:
         from . import c05
         ctx.run("C05-R1", "schedule recurrence of the forward pass (arrival / departure / carry / total duration)", c05.r1_schedule_recurrence, floor=1)
     except (ImportError, AttributeError):
         pass
+    from . import c01 as _c01
+    ctx.run("C01-D1", "routing legs are queried in travel direction (the cached tour distance / duration feeds the fitness and the report)", _c01.d1_leg_direction, floor=4)
+    from . import c16 as _c16
+    ctx.run("C16-F1", "routing providers: duration / distance methods read their own data, durations scaled by the profile (schedules are replayed from these values)", _c16.f1_field_roles, floor=18)
     ctx.run("C03-C1", "reported load change signs (deliveries out, pickups in); fixed cost charged exactly once per tour", c1_load_and_fixed_cost, floor=2)
     ctx.run("C03-U1", "cost coefficients multiply quantities of their own unit", u1_units, floor=1)
